@@ -6,6 +6,7 @@ import (
 	"go/types"
 	"sort"
 	"strings"
+	"sync/atomic"
 
 	"golang.org/x/tools/go/ssa"
 )
@@ -52,6 +53,7 @@ type Config struct {
 	TimeoutMs int
 	Solver    string
 	MaxDepth  int
+	JobTimeoutS int
 	Trace     bool
 	Prune     bool // ask the solver whether each symbolic block guard is feasible before executing the block
 }
@@ -123,6 +125,7 @@ type Interp struct {
 	reflTypes    map[string]*reflType
 	xx           map[*Value]*xxState
 	selCount     map[*ssa.Select]int
+	expired      atomic.Bool
 }
 
 func NewInterp(prog *ssa.Program, cfg Config) (*Interp, error) {
@@ -410,6 +413,9 @@ func (in *Interp) violationIf(cond *Term, kind, msg string) bool {
 
 func (in *Interp) restartSolver() {
 	in.sol.Close()
+	if in.expired.Load() {
+		abortf("job wall-clock limit exceeded")
+	}
 	if err := in.sol.start(); err != nil {
 		abortf("solver restart: %v", err)
 	}
